@@ -8,7 +8,7 @@
    (a condition / settime argument of type Int must be an int64, which everything
    except a bare len() is; a String comparison must have been given scmp).
    Executable definitions only. *)
-From V Require Export Lang.Ast.
+From V Require Export Lang.Ast Lang.Codegen.
 Local Open Scope Z_scope.
 
 Definition conv_ok (f t : ty) : bool :=
@@ -86,6 +86,8 @@ Fixpoint etype (e : expr) {struct e} : option ty :=
       if re_ok pid && opt_ty_is (etype b) TStr && opt_ty_is (etype c) TStr then Some TStr else None
   | ETimestamp => Some TInt
   | EGetfilename => Some TStr
+  | EIncr _ m ks =>
+      if metric_ok m (exprs_len ks) && keys_ok ks && ty_eqb (wmty m) TInt then Some TInt else None
   end
 with keys_ok (ks : exprs) {struct ks} : bool :=
   match ks with
@@ -98,8 +100,13 @@ Definition cond_ok (c : expr) : bool := is_cond c (etype c).
 Fixpoint wt_stmt (s : stmt) {struct s} : bool :=
   match s with
   | SInc m ks | SDec m ks => metric_ok m (exprs_len ks) && keys_ok ks && ty_eqb (wmty m) TInt
-  | SSet t m ks e | SAddTo t m ks e =>
+  | SSet t m ks e =>
       metric_ok m (exprs_len ks) && keys_ok ks && ty_eqb (wmty m) t && opt_ty_is (etype e) t
+  | SAddTo t m ks e =>
+      metric_ok m (exprs_len ks) && keys_ok ks && ty_eqb (wmty m) t && opt_ty_is (etype e) t
+      (* a `+=` that is not on an Int metric emits its target twice: the second
+         copy's string literals are the next entries of the string table *)
+      && (ty_eqb t TInt || keys_ok (shift_exprs (nstr_exprs ks) ks))
   | SSettime e => opt_ty_is (etype e) TInt && i64 e
   | SStrptime e sid layout => opt_ty_is (etype e) TStr && str_ok sid layout
   | SCond c th => cond_ok c && wt_block th
@@ -116,18 +123,29 @@ End Wt.
 Definition decl_ok (d : mdecl) : bool :=
   match md_ty d with
   | TBool => false
-  | TStr => match md_kind d with MCounter => false | _ => true end
+  | TStr => match Ast.md_kind d with MCounter => false | _ => true end
   | _ => true
   end.
 
 Definition wt (p : prog) : bool :=
   forallb decl_ok (p_decls p) && wt_block (p_decls p) (p_strs p) (length (p_res p)) (p_body p).
 
-(* ---- the proved fragment: everything above except a `+=` on a Float or text
-   metric (codegen.go emits the target twice) ---- *)
+(* ---- the proved fragment: everything above; for a `+=` on a Float or text
+   metric (codegen.go emits the target twice, so its index keys are evaluated
+   twice by the VM) the keys must be free of effects: no metric read, no x++ ---- *)
+Fixpoint pure_expr (e : expr) {struct e} : bool :=
+  match e with
+  | EInt _ | EFloat _ | EStr _ _ | ECap _ _ _ | ETimestamp | EGetfilename => true
+  | EConv _ _ a | ENeg a | ELen a | ETolower a => pure_expr a
+  | EArith _ _ a b | EBit _ a b => pure_expr a && pure_expr b
+  | _ => false
+  end.
+Fixpoint pure_keys (ks : exprs) : bool :=
+  match ks with XNil => true | XCons e r => pure_expr e && pure_keys r end.
+
 Fixpoint frag_stmt (s : stmt) {struct s} : bool :=
   match s with
-  | SAddTo t _ _ _ => ty_eqb t TInt
+  | SAddTo t _ ks _ => ty_eqb t TInt || pure_keys ks
   | SCond _ th | SOtherwise th => frag_block th
   | SCondElse _ th el => frag_block th && frag_block el
   | _ => true
